@@ -51,8 +51,20 @@ class _OldRewriter(ast.NodeTransformer):
         return self.generic_visit(node)
 
 
+class _Macro(ast.NodeTransformer):
+    def __init__(self, defs):
+        self.defs = defs
+
+    def visit_Name(self, node):
+        if node.id in self.defs:
+            return _Macro(self.defs).visit(ast.parse(self.defs[node.id].strip(), mode='eval').body)
+        return node
+
+
 def eval_clause(src, ns, old_ns):
     tree = ast.parse(src.strip(), mode='eval')
+    if ns.get('__defs__'):
+        tree = ast.fix_missing_locations(_Macro(ns['__defs__']).visit(tree))
     rw = _OldRewriter()
     tree = ast.fix_missing_locations(rw.visit(tree))
     ns = dict(ns)
@@ -108,6 +120,7 @@ def run_contract(c, kwargs, real=None):
     if real is None:
         real, _ = load_real(c.module.path, c.qualname)
     ns = spec_namespace(c.module)
+    ns['__defs__'] = getattr(c, 'defs', None)
     adapt = getattr(c, 'native_adapter', None)
     old_ns = dict(ns)
     old_ns.update(copy.deepcopy(kwargs))
@@ -139,7 +152,7 @@ def run_contract(c, kwargs, real=None):
         if cond is not True and getattr(c, 'raises_iff', True):
             if eval_clause(cond, ns_pre, old_ns):
                 return False, f'returned normally although ({cond}) requires {exc}'
-    for e in c.ensures:
+    for e in list(c.ensures) + list(c.ensures_bounded):
         try:
             ok = eval_clause(e, ns_post, old_ns)
         except Exception as ex:
